@@ -375,7 +375,13 @@ class dotdict_base( object ):
                              for k,v in super( dotdict_base, self ).items() )
 
     def __copy__( self ):
-        return type( self )( (k,copy.copy( v ))
+        """Copy each layer, including layers held in lists (their other elements are shared, as for
+        any shallow list copy)."""
+        def dup( v ):
+            if isinstance( v, list ):
+                return [ dup( e ) if isinstance( e, (list,dotdict_base) ) else e for e in v ]
+            return copy.copy( v )
+        return type( self )( (k,dup( v ))
                              for k,v in super( dotdict_base, self ).items() )
 
 
